@@ -276,7 +276,7 @@ func c14go(c *core.Ctx, r *core.Report, t *core.Dispatch) {
 			}
 		}
 		var miss []string
-		unknowns := core.InlinedInstrsFrom(c, fn, region, 2, isCallTo("CallUnknown"))
+		unknowns := core.InlinedInstrsFrom(c, fn, region, c.Depth(2), isCallTo("CallUnknown"))
 		if len(unknowns) == 0 {
 			miss = append(miss, "no CallUnknown")
 		}
@@ -298,7 +298,7 @@ func c14go(c *core.Ctx, r *core.Report, t *core.Dispatch) {
 		}
 		// kinds of callee value for which the node of Call.Value is created
 		var targets []core.InlinedInstr
-		for _, ii := range core.InlinedInstrsFrom(c, fn, region, 2, isCallTo("ValueNode")) {
+		for _, ii := range core.InlinedInstrsFrom(c, fn, region, c.Depth(2), isCallTo("ValueNode")) {
 			call := ii.Ins.(*ssa.Call)
 			for _, a := range call.Call.Args {
 				if ii.PathOf(a) == "Call.Value" {
